@@ -45,12 +45,13 @@ Qed.
 
 (* deleting needs an exact 'Yes' or force: otherwise the token is unchanged, whatever it holds *)
 Theorem delete_needs_yes_or_force st label answer st' r :
-  strip_newlines answer <> YES -> key_delete st label false answer = OK (st', r) -> st' = st.
+  strip_newlines answer <> YES -> key_delete st label false answer = (st', r) -> st' = st.
 Proof.
-  intros Hne. unfold key_delete. intros H. apply bind_ok_inv in H as (e & _ & H). destruct e as [k|].
+  intros Hne. unfold key_delete. intros H. destruct (get_p11_key st label true None) as [[k|]|c].
   - assert (text_eqb (strip_newlines answer) YES = false) as E.
     { destruct (text_eqb (strip_newlines answer) YES) eqn:E; [apply text_eqb_spec in E; contradiction|reflexivity]. }
     rewrite E in H. cbn in H. injection H as <- <-. reflexivity.
+  - injection H as <- <-. reflexivity.
   - injection H as <- <-. reflexivity.
 Qed.
 
@@ -66,7 +67,7 @@ Inductive op :=
 Definition step (st : Store) (o : op) : Store :=
   match o with
   | OpKeygen label np nr => match keygen st label np nr with OK (st', _) => st' | Raise _ => st end
-  | OpDelete label force answer => match key_delete st label force answer with OK (st', _) => st' | Raise _ => st end
+  | OpDelete label force answer => fst (key_delete st label force answer)
   end.
 
 Definition harmless (st : Store) (o : op) : Prop :=
@@ -87,7 +88,7 @@ Proof.
       + unfold keygen. rewrite H. reflexivity.
       + destruct (keygen st label np nr) as [[st' cr]|] eqn:E; [|reflexivity].
         apply keygen_store_cases in E as [[_ ->]|(_ & mi & s & Hs & _)]; [reflexivity|congruence].
-    - destruct Hh as [-> Hne]. destruct (key_delete st label false answer) as [[st' r]|] eqn:E; [|reflexivity].
+    - destruct Hh as [-> Hne]. destruct (key_delete st label false answer) as [st' r] eqn:E. cbn [fst].
       eapply delete_needs_yes_or_force; eauto. }
   apply IH. intros o' Ho'. apply Hh. right; exact Ho'.
 Qed.
